@@ -160,6 +160,15 @@ class C07(PropertyCheck):
                 else:
                     h.append(("T", tuple(rng.choice((65, 66, 0x3042)) for _ in range(rng.randint(0, 4)))))
             cases.append(Case(render(h), "random-history"))
+        # two different texts with the same 64-bit FxHash (the crate's own cheap hasher, gen/fxpairs.py): a cache stamped with length +
+        # hash instead of the text itself hands back the older one (seeded change C07-10); as messages of one key and as keys
+        import fxpairs
+        for (x, y) in fxpairs.ALL_PAIRS:
+            for (u, v) in ((x, y), (y, x), (x + "_cl0n", y + "_cl0n")):
+                mu, mv = tuple(map(ord, u)), tuple(map(ord, v))
+                cases.append(Case(render([("S", ka, mu), ("G", ka), ("S", ka, mv), ("G", ka), ("R", ka), ("G", ka)]), "fingerprint-collision"))
+                cases.append(Case(render([("S", ka, mu), ("G", ka), ("D", ka), ("S", ka, mv), ("G", ka)]), "fingerprint-collision"))
+                cases.append(Case(render([("S", mu, (X,)), ("S", mv, (BS, LN)), ("G", mu), ("G", mv), ("D", mu), ("H", mv), ("G", mv)]), "fingerprint-collision"))
         # very long histories of the same call: the dirty flag is set after ANY set - also the 65536th (seeded change C07-6 counted edits in a u16)
         for n in (1, 255, 256, 65535, 65536, 65537, 131072):
             cases.append(Case(render([("N", (n,), ka, (X,)), ("H", ka)]), "long-repetition"))
